@@ -528,7 +528,9 @@ def enumerate_all(R, step, stepobj, keep, every, overwrite, torn, ctx):
       check_observation(m, R.observe(), f'after retry following crash at '
                         f'event {k} ({res["events"][-1]})')
       # a later step saves normally and re-establishes the policy
-      later = (max(m.all_steps() | {step}) + 1.0)
+      top = max(m.all_steps() | {step})
+      # (a float step of 1e16 and more does not change when 1 is added)
+      later = top + max(1.0, abs(top))
       lobj = later if m.float_steps else int(later)
       res3, marker3 = R.save(later, lobj, keep, every, False)
       require(res3['status'] == 'ok', lambda: f'saving later step {lobj} after '
